@@ -323,6 +323,13 @@ def group_cases_law():
             exp = "T." + ".".join([e] * 4 + [ident])
         # double through every public doubling path, and P - P = identity
         out.append((["ge %s dup dbl enc drop dblp pdbl pdblf dup sub enc" % tp], [exp], None))
+        # adding / subtracting the identity in precomputed form leaves the point unchanged; by-value subtraction P - P
+        pe = enc_alt(pp)
+        if isinstance(pe, tuple):
+            exp2 = tuple("T." + ".".join([x] * 3 + [ident]) for x in pe)
+        else:
+            exp2 = "T." + ".".join([pe] * 3 + [ident])
+        out.append((["ge %s addpz enc subpz enc subpzv enc dup subv enc" % tp], [exp2], None))
         for q in pts:
             tq, qq = dec_token(q)
             add = (curve.pt_encode(curve.pt_add(pp[0], qq[0])).hex(), curve.pt_encode(curve.pt_add(pp[1], qq[1])).hex())
